@@ -222,7 +222,8 @@ class Agent(dbus.service.Object):
             except:
                 pass
 
-        for hdl in self._handlers:
+        # each close removes the handler from the list
+        for hdl in tuple(self._handlers):
             hdl.close()
 
         if tuple(self.locations):
